@@ -816,6 +816,22 @@ class Evaluator:
         return self._fold_assumed(self._compare(op, a, b))
 
     def _compare(self, op, a, b):
+        if op in ("eq", "ne") and (isinstance(a, StrSym) or isinstance(b, StrSym)):
+            x, y = (a, b) if isinstance(a, StrSym) else (b, a)
+            if isinstance(y, Const) and isinstance(y.v, str):
+                if len(y.v) != x.length:
+                    return Const(op == "ne")
+                res = True
+                for cx, cy in zip(x.chars, y.v):
+                    if cx.startswith("lit:"):
+                        if cx[4:] != cy:
+                            res = False
+                    else:
+                        if cy not in "0123456789abcdefABCDEF":
+                            res = False
+                        else:
+                            return Cond(("cmp", op, a, b))
+                return Const(res if op == "eq" else not res)
         # constant folding
         if op in ("is", "isnot"):
             if isinstance(a, Const) and isinstance(b, Const) and (a.v is None or b.v is None or isinstance(a.v, bool)):
@@ -907,6 +923,8 @@ class Evaluator:
         if op is ast.Mod and (isinstance(a, Const) and isinstance(a.v, str) or isinstance(a, Template)):
             return self.percent_format(a, b)
         if op is ast.Add:
+            if isinstance(a, StrSym) and isinstance(b, StrSym) and a.upper == b.upper:
+                return StrSym(a.chars + b.chars, a.upper)
             if isinstance(a, Seq) and isinstance(b, Seq):
                 return Seq(a.kind, a.items + b.items, ident="A:concat")
             def _isseq(x):
@@ -1055,7 +1073,7 @@ class Evaluator:
             a = self.getattr(base.a, attr, st)
             b = self.getattr(base.b, attr, st)
             return mkphi(base.cond, a, b)
-        if isinstance(base, (Seq, DictV, Const, Template)):
+        if isinstance(base, (Seq, DictV, Const, Template, StrSym)):
             return Bound(base, attr)
         if isinstance(base, Num):
             return Opaque("%s.%s" % (key(base), attr))
@@ -1620,6 +1638,11 @@ class Evaluator:
             s = recv.v
             if name == "join" and len(args) == 1:
                 items = self.iter_items(args[0])
+                if items is not None and s == "" and items and all(isinstance(x, StrSym) for x in items) and len({x.upper for x in items}) == 1:
+                    chars = []
+                    for x in items:
+                        chars.extend(x.chars)
+                    return StrSym(chars, items[0].upper)
                 if items is not None:
                     parts = []
                     for i, it in enumerate(items):
@@ -2087,6 +2110,22 @@ class StrSym:
         return StrSym(self.chars[slice(lo, hi, step)], self.upper)
 
     def method(self, name, args):
+        if name in ("lstrip", "strip", "removeprefix") and len(args) == 1 and isinstance(args[0], Const) and args[0].v == "#":
+            ch = list(self.chars)
+            if name == "removeprefix":
+                if ch and ch[0] == "lit:#":
+                    ch = ch[1:]
+            else:
+                while ch and ch[0] == "lit:#":
+                    ch = ch[1:]
+            return StrSym(ch, self.upper)
+        if name == "startswith" and len(args) == 1 and isinstance(args[0], Const) and isinstance(args[0].v, str) and len(args[0].v) == 1:
+            if not self.chars:
+                return FALSE
+            c0 = self.chars[0]
+            if c0.startswith("lit:"):
+                return Const(c0[4:] == args[0].v)
+            return Const(False) if args[0].v not in "0123456789abcdefABCDEF" else None
         if name == "upper" and not args:
             return StrSym(self.chars, True)
         if name == "lower" and not args:
